@@ -18,6 +18,7 @@ import multiprocessing as mp
 import os
 import sys
 import threading
+import time
 
 from harness import framework, tlc, c16
 
@@ -78,6 +79,7 @@ def run(ctx):
     ctx.assume("variable-length members (terminated, counted, bound, LEB128) have no C counterpart: they are generated in "
                "packed structures only (sequential layout); LEB128 originals are shortest encodings below 2^27")
     wd = tlc.workdir("c16")
+    t_start = time.time()
     out = {}
     th = []
     # --- generators (M + G) ------------------------------------------------------------------------
@@ -129,6 +131,7 @@ def run(ctx):
     for k, v in out.items():
         if isinstance(v, Exception):
             raise v if isinstance(v, tlc.MachineryError) else tlc.MachineryError("%s: %r" % (k, v))
+    t_tlc = time.time()
     # --- T-ref verdicts ---------------------------------------------------------------------------
     nrows = 0
     for k in sorted(out):
@@ -176,6 +179,8 @@ def run(ctx):
         if n == 0:
             raise tlc.MachineryError("generator %s produced no case" % kind)
     ctx.exhaustive = False
+    ctx.note("wall_s_tlc_runs_in_parallel", round(t_tlc - t_start, 1))
+    ctx.note("wall_s_replay_in_amoco", round(time.time() - t_tlc, 1))
     tlc.cleanup(wd)
 
 
